@@ -453,7 +453,7 @@ func VerifC37Delete() {
 func VerifC37Put() {
 	e := c37setup()
 	cnr := c37container(1, true)
-	attr := vrt.Choice("attributes", 5)
+	attr := vrt.Choice("attributes", 7)
 	switch attr {
 	case 1:
 		cnr.SetAttribute("__NEOFS__NAME", "n")
@@ -463,6 +463,12 @@ func VerifC37Put() {
 		cnr.SetAttribute("__NEOFS__METAINFO_CONSISTENCY", "strict")
 	case 4:
 		cnr.SetAttribute("user-attribute", "__NEOFS__NAME")
+	case 5: // a forbidden system attribute after a permitted one
+		cnr.SetAttribute("__NEOFS__METAINFO_CONSISTENCY", "strict")
+		cnr.SetAttribute("__NEOFS__SOMETHING", "x")
+	case 6: // ... and before it
+		cnr.SetAttribute("__NEOFS__SOMETHING", "x")
+		cnr.SetAttribute("__NEOFS__NAME", "n")
 	}
 	pol := vrt.Choice("policy", 4)
 	var p netmap.PlacementPolicy
@@ -486,7 +492,7 @@ func VerifC37Put() {
 		Container: bin, InvocationScript: a.invoc, VerificationScript: a.verif, SessionToken: a.token}}
 	e.cp.processContainerPut(req, id)
 
-	attrOK := attr != 2 && (attr != 3 || e.cp.metaEnabled)
+	attrOK := attr != 2 && attr != 5 && attr != 6 && (attr != 3 || e.cp.metaEnabled)
 	polOK := p.Verify() == nil && (pol < 2 || e.cp.allowEC) && pol != 3
 	if e.approved() {
 		vrt.Assert(a.authorised(e, 1, session.VerbContainerPut, sessionv2.VerbContainerPut, false, bin), "container creation is approved only if its owner authorised it")
